@@ -171,7 +171,7 @@ type c16Case struct {
 }
 
 var (
-	c16Cases  []c16Case
+	c16Cases []c16Case
 )
 
 func c16Build(c *mon.Ctx) {
@@ -395,8 +395,8 @@ func c16JudgeFermat(c *mon.Ctx, k int) {
 
 func init() {
 	mon.Register(&mon.Check{
-		ID:   "C16",
-		Rule: "evaluations = certificates whose SubjectPublicKeyInfo was rewritten with a chosen (N, e) and linted; every key-quality lint designed to apply on the template (TLS subscriber 2024, code-signing subscriber, old sub-CA, old subscriber, really self-signed old root) is compared with an independent arithmetic reference (sieve primes < 752, bit length, parity, closed-form Fermat round index); NA/NE on such a template is itself a violation. Moduli: bit lengths around 1024/2048/3072 and multiples of 8 +-1, 2^k+1, 2^k-1, even, every divisor 2..800 times a prime cofactor, products of primes just above 752; exponents 1..2^64+1; prime pairs at controlled distance with Rounds in {0,1,2,100,101,1000, index-1..index+2} set through configuration. distinct_nontrivial = distinct (lint, status) verdicts + Fermat judgements.",
+		ID:          "C16",
+		Rule:        "evaluations = certificates whose SubjectPublicKeyInfo was rewritten with a chosen (N, e) and linted; every key-quality lint designed to apply on the template (TLS subscriber 2024, code-signing subscriber, old sub-CA, old subscriber, really self-signed old root) is compared with an independent arithmetic reference (sieve primes < 752, bit length, parity, closed-form Fermat round index); NA/NE on such a template is itself a violation. Moduli: bit lengths around 1024/2048/3072 and multiples of 8 +-1, 2^k+1, 2^k-1, even, every divisor 2..800 times a prime cofactor, products of primes just above 752; exponents 1..2^64+1; prime pairs at controlled distance with Rounds in {0,1,2,100,101,1000, index-1..index+2} set through configuration. distinct_nontrivial = distinct (lint, status) verdicts + Fermat judgements.",
 		Assumptions: []string{"(N, e) the parser rejects (non-positive, exponent beyond the platform int) are outside the quantifier and counted"},
 		Setup: func(c *mon.Ctx) error {
 			if err := setupCommon(c); err != nil {
